@@ -22,7 +22,8 @@ EXPLANATION = (
     '"unvisited" value 0; (MPT.3) the dependency declaration records the edge in both directions for every '
     'name; (GRD.3) in the unload rounds a module is removed only with no reverse dependencies and not a '
     'backend, each removal flags progress so the rounds run to a fixpoint, and the per-module cleanup drops '
-    'the module from each dependency\'s reverse list.  The order over all DAGs is NOT decided.')
+    'the module from each dependency\'s reverse list.  The order over all DAGs is NOT decided.'
+    ' Rounds 8-9: (GRD.5) a bare name handed to dlopen is non-empty; (TAB.3) lazy global dlopen; (WIRE.4) the configured list is loaded once as a whole; (GRD.6) the back-end count is a truth value; (MPT.8) the loader is entered from a constructor only to load what the caller depends on (known finding F53).')
 ASSUMPTIONS = ['clang 14 CFG', 'log_message(..., LOG_FATAL, ...) terminates the process', 'dlsym("module_*") resolves to the module\'s own entry point']
 
 
